@@ -5,6 +5,7 @@ package main
 import (
 	"fmt"
 	"go/types"
+	"strings"
 
 	"golang.org/x/tools/go/ssa"
 )
@@ -16,6 +17,16 @@ func (ex *Ex) hardcoded(fr *Frame, st *State, ins ssa.Instruction, callee *ssa.F
 	name := callee.String()
 	targ := func(i int) *T { return ex.termOf(fr, st, args[i], callee.Params[i].Type()) }
 	switch name {
+	case "github.com/cockroachdb/redact.Safe":
+		// C03 sink: whatever the library itself declares safe must be provably built from
+		// PII-free sources. Constants are PII-free by construction.
+		if ex.Props == nil || ex.Props["C03"] {
+			if call, ok := ins.(*ssa.Call); ok && !isConstOperand(call.Call.Args[0]) {
+				goal := App("f$safeAny", SBool, targ(0))
+				ex.oblige(fr, st, ex.obName(fr, "safe", ins), "safe", []string{"C03"}, "argument of redact.Safe is built from PII-free sources only", goal, posOf(ins))
+			}
+		}
+		return false
 	case "strings.HasSuffix":
 		ex.note("extern axiom: strings.HasSuffix == str.suffixof")
 		k(st, Val{T: App("str.suffixof", SBool, targ(1), targ(0))})
@@ -36,6 +47,30 @@ func (ex *Ex) hardcoded(fr *Frame, st *State, ins ssa.Instruction, callee *ssa.F
 		st.Assume(Eq(App("rtid", SInt, App("rtref", SRef, Dyn(x))), Dyn(x)))
 		k(st, Val{T: Ite(IfaceIsNil(x), NilIface, rt)})
 		return true
+	case "(*bytes.Buffer).Len", "(*bytes.Buffer).Bytes", "(*bytes.Buffer).String":
+		// bytes.Buffer (T7): its unread content is a function of the buffer value
+		if args[0].Ptr != nil {
+			bv := ex.loadFrom(fr, st, args[0], callee.Params[0].Type().(*types.Pointer).Elem(), nil).T
+			content := App("f$bufContent", w.sliceSort(SInt), bv)
+			st.Assume(Ge(w.SliceLen(content), IntLit(0)))
+			switch callee.Name() {
+			case "Len":
+				k(st, Val{T: w.SliceLen(content)})
+			case "Bytes":
+				k(st, Val{T: content})
+			default:
+				k(st, Val{T: App("stringOf$"+w.sliceSort(SInt).Mangle(), SString, content)})
+			}
+			return true
+		}
+	case "(*bytes.Buffer).Write", "(*bytes.Buffer).WriteString", "(*bytes.Buffer).WriteByte", "(*bytes.Buffer).WriteRune", "(*bytes.Buffer).Reset", "(*bytes.Buffer).Truncate":
+		if args[0].Ptr != nil {
+			bt := callee.Params[0].Type().(*types.Pointer).Elem()
+			ex.storeTo(fr, st, args[0], Val{T: ex.FreshVar("buf", w.SortOf(bt))}, bt, nil)
+			res, _ := ex.freshResults(callee.Name(), callee.Signature)
+			k(st, res)
+			return true
+		}
 	case "runtime.Callers":
 		// ghost frame level (DESIGN §2.6): Callers(skip) called at level L records level L-skip+1 first
 		ex.note("extern axiom: runtime.Callers(skip, pc) called at frame level L records the frame at level L-(skip-1) first (logical frames, inlining-aware)")
@@ -111,7 +146,23 @@ func (ex *Ex) reflectInvoke(fr *Frame, st *State, recv *T, method string, args [
 	return nil, false
 }
 
+// uniformCall: contracts every function value of a given shape must be called under.
 func (ex *Ex) uniformCall(fr *Frame, st *State, ins ssa.Instruction, cc *ssa.CallCommon, ft *T, args []Val, k func(*State, Val)) bool {
+	sig := cc.Signature()
+	// special-case printers (errbase.RegisterSpecialCasePrinter): func(err error, p Printer, isLeaf bool) (bool, error).
+	// Uniform precondition: isLeaf means the error has no cause at all - neither a single cause nor
+	// multi-cause branches (a "leaf" whose text may be printed as safe must own its whole text).
+	if sig.Params().Len() == 3 && sig.Results().Len() == 2 && sig.Params().At(0).Type().String() == "error" &&
+		strings.HasSuffix(sig.Params().At(1).Type().String(), "errbase.Printer") && sig.Params().At(2).Type().String() == "bool" {
+		if ex.Props == nil || ex.Props["C03"] {
+			e := ex.termOf(fr, st, args[0], cc.Args[0].Type())
+			leaf := ex.termOf(fr, st, args[2], cc.Args[2].Type())
+			causes := App("f$causes", ex.W.sliceSort(SIface), e)
+			goal := Implies(leaf, And(IfaceIsNil(App("f$cause1", SIface, e)), Eq(ex.W.SliceLen(causes), IntLit(0))))
+			name := fmt.Sprintf("%s#specialcase.leaf", ex.topPrefix(fr))
+			ex.oblige(fr, st, name, "callpre", []string{"C03"}, "a special-case printer is told isLeaf only for errors without any cause (single or multi)", goal, posOf(ins))
+		}
+	}
 	return false
 }
 
@@ -152,3 +203,24 @@ func (ex *Ex) assumeLevelPost(cf *Frame, st *State, ctr *Contract, args []Val, r
 func (ex *Ex) checkLevelPost(fr *Frame, st *State, ctr *Contract, results []SV)              {}
 
 var _ = types.Typ
+
+// isConstOperand: a constant, possibly converted / boxed.
+func isConstOperand(v ssa.Value) bool {
+	for i := 0; i < 6; i++ {
+		switch x := v.(type) {
+		case *ssa.Const:
+			return true
+		case *ssa.MakeInterface:
+			v = x.X
+		case *ssa.ChangeType:
+			v = x.X
+		case *ssa.Convert:
+			v = x.X
+		case *ssa.ChangeInterface:
+			v = x.X
+		default:
+			return false
+		}
+	}
+	return false
+}
